@@ -32,7 +32,11 @@ from sktime.forecasting.trend import PolynomialTrendForecaster  # noqa: E402
 
 def build_y(case):
     vals = [np.nan if v is None else v for v in case["values"]]
-    return gen.build_series(vals, case["start"], case["index_kind"])
+    y = gen.build_series(vals, case["start"], case["index_kind"])
+    if case.get("int_dtype") and not np.isnan(y.to_numpy()).any():
+        # counts stored with an integer dtype (the formulas are those of the real numbers)
+        y = pd.Series(np.round(y.to_numpy()).astype("int64"), index=y.index)
+    return y
 
 
 # ---------------------------------------------------------------- naive reference
@@ -149,7 +153,7 @@ def naive_cases(draw, strategy, in_sample=False):
         "strategy": strategy, "sp": sp, "wl": w, "values": vals, "fh": steps,
         "start": draw(gen.index_start), "index_kind": draw(gen.index_kind),
         "fh_kind": draw(st.sampled_from(["list", "array", "fh"])),
-        "prefit": draw(st.sampled_from([0, 0, 1, 3, 7])),
+        "prefit": draw(st.sampled_from([0, 0, 1, 3, 7])), "int_dtype": draw(st.integers(0, 3)) == 0,
     }
 
 
@@ -223,7 +227,7 @@ def trend_cases(draw):
         "values": draw(gen.series_values(n, n, lo=-500.0, hi=1000.0)), "fh": steps,
         "start": draw(gen.index_start), "index_kind": draw(gen.index_kind),
         "fh_kind": draw(st.sampled_from(["list", "array", "fh"])),
-        "prefit": draw(st.sampled_from([0, 0, 2, 5])), "moved": draw(st.sampled_from([0, 0, 1, 3])),
+        "prefit": draw(st.sampled_from([0, 0, 2, 5])), "moved": draw(st.sampled_from([0, 0, 1, 3])), "int_dtype": draw(st.integers(0, 3)) == 0,
     }
 
 
